@@ -96,6 +96,17 @@ func (p *prog) useDeep(expr string, t hs.Type, v hs.Value) {
 			p.useDeep(fmt.Sprintf("%s.last().unwrap()", expr), *t.Elem, l.Elems[len(l.Elems)-1])
 			p.noSet = false
 		}
+		if !p.noSet {
+			// the loop variable of a `for` over the list is a value of the element type as well (the loop runs over a
+			// snapshot: what the body does to its variable stays in the snapshot)
+			p.loops++
+			x := fmt.Sprintf("lv%d", p.loops)
+			body, exp := loopUse(x, *t.Elem, l.Elems)
+			if body != "" {
+				p.stmt("for %s in %s { %s }", x, expr, body)
+				p.exp = append(p.exp, exp...)
+			}
+		}
 		for i, e := range l.Elems {
 			p.useDeep(fmt.Sprintf("%s[%d]", expr, i), *t.Elem, e)
 		}
@@ -144,6 +155,93 @@ func (p *prog) useDeep(expr string, t hs.Type, v hs.Value) {
 	default:
 		panic("useDeep " + t.Src())
 	}
+}
+
+// loopUse: statements over a loop variable x of type t that do not depend on the element, and what they print for
+// each element.
+func loopUse(x string, t hs.Type, elems []hs.Value) (string, []string) {
+	var exp []string
+	switch t.K {
+	case hs.KAnyObj:
+		for _, e := range elems {
+			exp = append(exp, fmt.Sprintf("%d false %d", len(e.(*hs.ObjV).M), len(e.(*hs.ObjV).M)+1))
+		}
+		return fmt.Sprintf("let before = %s.keys().len(); let absent = %s.get(\"__absent\").is_some(); %s.set(\"__loop\", 1); println(before, absent, %s.keys().len());", x, x, x, x), exp
+	case hs.KOpt:
+		inner := ""
+		if t.Elem.K == hs.KAnyObj {
+			inner = fmt.Sprintf(" if %s.is_some() { println(%s.unwrap().get(\"__absent\").is_none()); }", x, x)
+		}
+		for _, e := range elems {
+			in := e.(hs.OptV).Inner
+			exp = append(exp, fmt.Sprintf("%v %v", in != nil, in == nil))
+			if in != nil && inner != "" {
+				exp = append(exp, "true")
+			}
+		}
+		return fmt.Sprintf("println(%s.is_some(), %s.is_none());%s", x, x, inner), exp
+	case hs.KList:
+		for _, e := range elems {
+			exp = append(exp, fmt.Sprint(len(e.(*hs.ListV).Elems)))
+		}
+		if t.Elem.K == hs.KAnyObj || t.Elem.K == hs.KOpt {
+			// one level further: the elements of the element
+			y := x + "i"
+			body, _ := loopUse(y, *t.Elem, nil)
+			exp = nil
+			for _, e := range elems {
+				exp = append(exp, fmt.Sprint(len(e.(*hs.ListV).Elems)))
+				_, ie := loopUse(y, *t.Elem, e.(*hs.ListV).Elems)
+				exp = append(exp, ie...)
+			}
+			return fmt.Sprintf("println(%s.len()); for %s in %s { %s }", x, y, x, body), exp
+		}
+		return fmt.Sprintf("println(%s.len());", x), exp
+	case hs.KObj:
+		// typed objects: their fields of any-object / option type
+		var parts []string
+		fs := append([]hs.Field{}, t.Fields...)
+		sort.Slice(fs, func(i, j int) bool { return fs[i].Name < fs[j].Name })
+		per := make([][]string, len(elems))
+		for _, f := range fs {
+			if f.T.K != hs.KAnyObj && f.T.K != hs.KOpt && f.T.K != hs.KList {
+				continue
+			}
+			var vals []hs.Value
+			for _, e := range elems {
+				vals = append(vals, e.(*hs.ObjV).M[f.Name])
+			}
+			if f.T.K == hs.KList {
+				// the list field of the loop variable is looped over in turn
+				y := x + f.Name
+				var body string
+				for i, v := range vals {
+					b, ie := loopUse(y, *f.T.Elem, v.(*hs.ListV).Elems)
+					body = b
+					per[i] = append(per[i], ie...)
+				}
+				if body == "" {
+					b, _ := loopUse(y, *f.T.Elem, nil)
+					body = b
+				}
+				if body != "" {
+					parts = append(parts, fmt.Sprintf("for %s in %s.%s { %s }", y, x, f.Name, body))
+				}
+				continue
+			}
+			b, _ := loopUse(x+"."+f.Name, f.T, nil)
+			parts = append(parts, b)
+			for i, v := range vals {
+				_, ie := loopUse(x+"."+f.Name, f.T, []hs.Value{v})
+				per[i] = append(per[i], ie...)
+			}
+		}
+		for _, pe := range per {
+			exp = append(exp, pe...)
+		}
+		return strings.Join(parts, " "), exp
+	}
+	return "", nil
 }
 
 // admission forms: how the dynamic value reaches the static type
